@@ -5,6 +5,7 @@ import (
 	"go/ast"
 	"go/constant"
 	"go/token"
+	"go/types"
 	"golang.org/x/tools/go/ssa"
 	"os"
 	"reflect"
@@ -568,11 +569,23 @@ func c12(r *Report) propMeta {
 	r.CondExists("side-by-prefix-length", gm, Cond{Op: "EQL", A: []string{"binop:+", "const:1", "call:binary.Varint"}, B: []string{"len", "field:InnerOp.Prefix"}, Want: false}, 1)
 	r.Exists("fields-in-order", gm, StoreEff("IAVLMerklePath.SubtreeHeight", "call:binary.Varint", "!slice"), 1)
 	c12Sibling(r, gm)
+	r.Rule("C12.R7", "every proven result is decoded into a fresh value")
+	r.AnyOf("result-decoded-fresh", "the proof service decodes a stored result with the codec (which resets its target), OR into a variable declared inside the per-request loop", map[string]func(*Report){
+		"codec-resets": func(s *Report) {
+			s.Exists("decode-with-codec", "client/grpc/oracle/proof.proofServer.MultiProof", CallEff("MustUnmarshal"), 1)
+			s.EffectSet("no-raw-unmarshal", "client/grpc/oracle/proof.proofServer.MultiProof", []string{"types.Result.Unmarshal"}, nil)
+		},
+		"fresh-variable-per-request": func(s *Report) {
+			c12FreshPerIteration(s, "client/grpc/oracle/proof.proofServer.MultiProof", "Result")
+		},
+	})
+
 	return propMeta{
 		Decided: []string{
 			"R1 the Merkle path of the `oracle` leaf among the constant store names passed to NewKVStoreKeys (sorted, RFC-6962 split) has exactly the depth and left/right pattern GetMultiStoreProof hard-codes (Path[i].Prefix[1:] vs .Suffix), recomputed on every run: adding/removing/renaming a store that moves the leaf fails the check",
 			"R2 the five hashed header parts are contiguous, tree-aligned runs of cometbft Header.Hash's leaf list (read from the dependency source) and the uncovered leaves are exactly Height, Time, AppHash",
 			"R6 transformResult fills each of the eleven fields of the ABI-encoded result from the field of the same name of the stored oracle result (Params from Calldata) and from no other field: the bridge re-encodes these fields to rebuild the leaf (seed C12-5 took AnsCount from AskCount)", "R5 (sibling bytes) the sibling hash is taken from the Suffix without its LEADING length marker (Suffix[1:]) when the proven node is the left child, and from the Prefix after the node header and child marker without its TRAILING marker (Prefix[n+1:len-1]) when it is the right child - whether written inline or in a private helper (seed C12-3 trimmed the wrong end of the suffix)", "R5 IAVL node headers are parsed as a chain of varints (height, size, version), the k-th starting at the sum of all previous lengths; side decided by comparing the header length + 1 with the prefix length", "R3 the literal bytes 34,10,18,42,50 equal (field<<3|2) for the field numbers in cometbft's CanonicalVote/CanonicalBlockID struct tags; 32 and 72 follow from the fixed sizes; only BlockIDFlagCommit votes are used and the recovered address must equal the vote's validator address",
+			"R7 (disjunctive) MultiProof decodes each stored result with the codec's MustUnmarshal (resets the target) or into a variable allocated inside the per-request loop: absent wire fields of one result never inherit the previous request's values (seed C12-8 gave up both)",
 		},
 		Undecided: []string{"IAVL proof values over all tree shapes beyond the varint-offset chain", "signature recovery itself", "one-byte length prefixes holding for long chain ids / part-set totals >= 128"},
 		Assume:    []string{"rootmulti commits exactly the mounted IAVL KV stores (transient and memory stores are excluded)", "cometbft source in the module cache is what the node runs"},
@@ -629,4 +642,49 @@ func c12Sibling(r *Report, gm string) {
 	if !fromSuffix || !fromPrefix {
 		r.Unres("sibling|both", d, "expected one store from the Suffix and one from the Prefix")
 	}
+}
+
+// c12FreshPerIteration: the local of the given type that fn decodes into is allocated inside a loop (a fresh value per
+// iteration), not once before it.
+func c12FreshPerIteration(r *Report, fnKey, typeName string) {
+	w := r.W
+	fn := w.Fn(fnKey)
+	d := "the " + typeName + " value " + fnKey + " decodes into is allocated inside the per-request loop"
+	if fn == nil {
+		r.Unres("fresh|"+fnKey, d, "function not found")
+		return
+	}
+	loops := naturalLoops(fn)
+	found := false
+	for _, b := range fn.Blocks {
+		for _, in := range b.Instrs {
+			a, ok := in.(*ssa.Alloc)
+			if !ok || typeName != typeNameOf(a.Type()) {
+				continue
+			}
+			found = true
+			inLoop := false
+			for _, l := range loops {
+				if l[b] {
+					inLoop = true
+				}
+			}
+			if !inLoop {
+				r.Bad("fresh|"+fnKey, d, w.posOr(a.Pos(), fn), "allocated once, outside every loop")
+				return
+			}
+		}
+	}
+	if !found {
+		r.Unres("fresh|"+fnKey, d, "no local of type "+typeName)
+		return
+	}
+	r.OK("fresh|"+fnKey, d, w.FnPos(fn), "allocated per iteration")
+}
+
+func typeNameOf(t types.Type) string {
+	if p, ok := t.Underlying().(*types.Pointer); ok {
+		t = p.Elem()
+	}
+	return typeName(t)
 }
